@@ -1853,7 +1853,7 @@ func c09GenPush(r *kit.Rand, idx int) *c09PushCase {
 			case 2:
 				c.CorruptLocal = b
 			default:
-				c.Faults = append(c.Faults, c09Fault{Target: fmt.Sprintf("put:%d", b), Kind: kit.Pick(r, []string{"status500", "status400", "reset", "reset-mid", "bad-location"}), Times: 1})
+				c.Faults = append(c.Faults, c09Fault{Target: fmt.Sprintf("put:%d", b), Kind: kit.Pick(r, []string{"status500", "status400", "reset", "reset-mid", "bad-location", "status307", "status308", "status302"}), Times: 1})
 			}
 		}
 	}
@@ -1999,6 +1999,13 @@ func (w *c09PushWorld) serve(rw http.ResponseWriter, r *http.Request) {
 		case f == "status400":
 			w.note(b, "upload-failed")
 			c09ErrBody(rw, 400, "BLOB_UPLOAD_INVALID")
+		case strings.HasPrefix(f, "status3"):
+			// the registry sends the upload on to its storage backend: nothing is accepted yet; a client that
+			// can replay the body may follow (the PUT to the new location is then served like any other)
+			code, _ := strconv.Atoi(strings.TrimPrefix(f, "status"))
+			w.note(b, "upload-redirected")
+			rw.Header().Set("Location", fmt.Sprintf("http://%s%s%s-storage", c09Host, pre, strings.TrimSuffix(rest, "-storage")))
+			rw.WriteHeader(code)
 		case rerr != nil || len(body) != c.Blobs[b].Size || sha256.Sum256(body) != c.Blobs[b].dig.Sum():
 			w.note(b, "upload-rejected-digest-mismatch")
 			c09ErrBody(rw, 400, "DIGEST_INVALID")
